@@ -70,7 +70,7 @@ FIRST result of the check as it stood and what was generalised after a miss (rou
 first, C02-61 only through the broken tie, C13-61 and C13-62 silent; all 20 caught with a failing input after the
 strengthenings, which also catch round 5's C12-51; round 7: 18 of 20 caught with a failing input at first, C14-71 only
 through the broken map-range tie, C14-72 silent; all 20 after the strengthenings; round 8 (16 changes for eight properties):
-13 at first, C10-82 only through the broken translator tie, C05-82 and C13-81 silent; all 16 after the strengthenings).
+12 at first, C10-82 and C05-81 only through a broken translator tie, C05-82 and C13-81 silent; all 16 after the strengthenings).
 
 The column *latest batch run* is written by `tools/batchtest.py` + `tools/merge_results.py` (quick tier, the check run
 exactly as registered, against a scratch worktree with the change applied): `violation with failing input` = caught with a
